@@ -180,4 +180,28 @@ theorem rxData_testBit (ln : Nat → Bool) (tw init : Nat) (hi : init < 256) (n 
       rw [ih (k + 1) (by omega) (by omega)]
       congr 2; omega
 
+/-- Start-edge detection: from IDLE with `rx = 0`, `rx_d = 1` the receiver enters RUN with the accumulator at 2^31. -/
+theorem rx_entry (tw : Nat) (s : RxSt) (p : Bool) (hrun : s.run = false) (hrx : s.rx = false) (hd : s.rxD = true) :
+    (rxNext tw s p).run = true ∧ (rxNext tw s p).count = 0 ∧ (rxNext tw s p).acc = ⟨HALF32, false⟩ ∧
+    (rxNext tw s p).rx = s.r0 ∧ (rxNext tw s p).r0 = p ∧ (rxNext tw s p).data = s.data := by
+  simp [rxNext, hrun, hrx, hd, accNext, accLoad, Acc.ofNat, HALF32, M32]
+
+/-- The entry state satisfies the RUN invariant at `r = 0`. -/
+theorem rx_inv_entry (tw : Nat) (ln : Nat → Bool) (s0 : RxSt) (hrun : s0.run = true) (hc : s0.count = 0)
+    (hacc : s0.acc = ⟨HALF32, false⟩) (hrx : s0.rx = ln 0) (hr0 : s0.r0 = ln 1) :
+    RxInv tw ln s0.data 0 s0 :=
+  ⟨hrun, hrx, hr0, by rw [hacc]; show HALF32 < M32; unfold HALF32 M32; omega, by rw [hacc, hc]; simp, by rw [hacc]; simp,
+   by omega, by rw [hc]; rfl⟩
+
+/-- The cycle of the tenth sample is the first one in which ten bit periods minus the half-bit offset have elapsed. -/
+theorem rx_last_cycle (tw : Nat) (h0 : 0 < tw) :
+    10 * M32 ≤ HALF32 + rxSampleCycle tw 10 * tw ∧ HALF32 + rxSampleCycle tw 10 * tw < 10 * M32 + tw := by
+  unfold rxSampleCycle
+  have hdm := Nat.div_add_mod ((2 * 10 - 1) * HALF32 + tw - 1) tw
+  have hml := Nat.mod_lt ((2 * 10 - 1) * HALF32 + tw - 1) h0
+  rw [Nat.mul_comm _ tw]
+  generalize tw * (((2 * 10 - 1) * HALF32 + tw - 1) / tw) = q at *
+  unfold M32 HALF32 at *
+  omega
+
 end Litex.Periph
